@@ -8,6 +8,7 @@ import Indi.Spec.Msg
 import Indi.Model.RtrGlue
 import Indi.Spec.Rtr
 import Indi.Spec.Switch
+import Indi.Spec.BufRun
 
 open Indi Indi.Wire
 
@@ -101,8 +102,55 @@ def pSwOp : P Switch.Op := do
 def encSwStep (r : List (List Bool) × List Bool) : String :=
   String.intercalate "," (r.1.map encBits) ++ ">" ++ encBits r.2
 
+/-! buffer component -/
+
+def pThreshold : P (Option Nat) := do
+  let t ← tok
+  if t = "~" then pure none else
+  match t.toNat? with
+  | some n => pure (some n)
+  | none => fail
+
+def pTable : P (List (Str × Nat)) := pList (do let k ← pStr; let v ← pNat; pure (k, v))
+
+def pSeg : P (Buf.Seg Nat) := do
+  let g ← pStr; let b ← pStr; let m ← pNat
+  pure { gap := g, body := b, msg := m }
+
+def encIds (l : List Nat) : String := String.intercalate "," (l.map toString)
+
+def encCalls (calls : List (List Nat)) : String := String.intercalate " | " (calls.map encIds)
+
+/-- run a session and report, per call, the delivered ids and the retained data -/
+def bufSession (tp : Str → Option Nat) (tags : List Str) (T : Option Nat) : Str → List Str → List String
+  | _, [] => []
+  | data, p :: ps =>
+    let r := Buf.feed tp tags T data p
+    (encIds r.1 ++ ">" ++ encStr r.2) :: bufSession tp tags T r.2 ps
+
 def handle (ts : List String) : String :=
   match ts with
+  | "buf" :: "session" :: rest =>
+    match runP (do let T ← pThreshold; let tags ← pList pStr; let tb ← pTable; let ps ← pList pStr; pure (T, tags, tb, ps)) rest with
+    | some (T, tags, tb, ps) => String.intercalate " | " (bufSession (Buf.tableParse tb) tags T [] ps)
+    | none => "bad-op"
+  | "spec" :: "buf02" :: rest =>
+    match runP (do
+        let T ← pThreshold; let tags ← pList pStr; let tb ← pTable
+        let segs ← pList pSeg; let final ← pStr; let ps ← pList pStr
+        pure (T, tags, tb, segs, final, ps)) rest with
+    | some (T, tags, tb, segs, final, ps) =>
+      if Buf.streamOkB tb tags T segs final && (ps.flatten.isPrefixOf (Buf.encode segs final)) then
+        encCalls (Buf.expectedCalls segs 0 0 ps)
+      else "na"
+    | none => "bad-op"
+  | "spec" :: "buf11" :: rest =>
+    match runP (do
+        let T ← pThreshold; let ids ← pList pNat
+        let calls ← pList (do let d ← pList pNat; let r ← pNat; pure (d, r))
+        pure (T, ids, calls)) rest with
+    | some (T, ids, calls) => encBool (Buf.c11Holds T ids calls)
+    | none => "bad-op"
   | "sw" :: "run" :: rest =>
     match runP (do let r ← pRule; let v ← pBits; let ops ← pList pSwOp; pure (r, v, ops)) rest with
     | some (r, v, ops) => String.intercalate " | " ((Switch.run r v ops).map encSwStep)
